@@ -115,6 +115,13 @@ var lockExemptFuncs = map[string]string{
 	"pkg/rpc:NewNetworkMachine":          "constructor",
 }
 
+// lockExempt: f is a tabled function, or a private helper hosted (through one
+// caller function only) by one.
+func (c *Ctx) lockExempt(f *ssa.Function) bool {
+	_, ok := c.hostKeyIn(f, func(k string) bool { _, ex := lockExemptFuncs[k]; return ex })
+	return ok
+}
+
 func (c *Ctx) guardedFields() (map[*types.Var]string, map[string]guardSpec) {
 	fields := map[*types.Var]string{}
 	specs := map[string]guardSpec{}
@@ -218,8 +225,7 @@ func (c *Ctx) checkGuardedFull(la *LockAnalysis, rule string, filter func(a acce
 		if filter != nil && !filter(a) {
 			continue
 		}
-		fk := funcKey(topFunc(a.Fn))
-		if _, ex := lockExemptFuncs[fk]; ex {
+		if c.lockExempt(topFunc(a.Fn)) {
 			continue
 		}
 		spec := specs[a.FID]
@@ -424,7 +430,7 @@ func (c *Ctx) checkEscapes(la *LockAnalysis, rule string) {
 				if w.Kind == "assign" {
 					continue
 				}
-				if _, ex := lockExemptFuncs[funcKey(topFunc(w.Fn))]; ex {
+				if c.lockExempt(w.Fn) {
 					continue
 				}
 				if bad == "" {
@@ -445,7 +451,7 @@ func (c *Ctx) checkEscapes(la *LockAnalysis, rule string) {
 		if !la.funcs[f] {
 			continue
 		}
-		if _, ex := lockExemptFuncs[funcKey(topFunc(f))]; ex {
+		if c.lockExempt(f) {
 			continue
 		}
 		for _, b := range f.Blocks {
@@ -590,7 +596,7 @@ func (c *Ctx) validAlts(la *LockAnalysis, fid string) []string {
 		if !a.Write {
 			continue
 		}
-		if _, ex := lockExemptFuncs[funcKey(topFunc(a.Fn))]; ex {
+		if c.lockExempt(a.Fn) {
 			continue
 		}
 		for _, hr := range a.Held {
@@ -642,7 +648,7 @@ func (c *Ctx) validWAlts(la *LockAnalysis, fid string) []string {
 		if !a.Write {
 			continue
 		}
-		if _, ex := lockExemptFuncs[funcKey(topFunc(a.Fn))]; ex {
+		if c.lockExempt(a.Fn) {
 			continue
 		}
 		writers[a.FID]++
